@@ -76,6 +76,7 @@ CHECK = {
     "parts": [
         {"name": "solids", "harness": "c09_solids", "flavour": "rel",
          "env": {"CELER_LOG_LOCAL": "critical"},
+         "depth": {"quick": "thorough"},   # thorough bounds cost < 40 s
          "shards": {"quick": 16, "thorough": 16}, "deadline": {"quick": 150, "thorough": 1200}},
     ],
 }
